@@ -108,7 +108,7 @@ struct Exec
 			int h = pickLive();
 			C& a = *hs[h];
 			int len = a.length();
-			int r = rng.below(118);
+			int r = rng.below(162);
 			if (burst > 0) { r = 0; burst--; }
 			else if (rng.below(400) == 0) burst = rng.range(20, 300);
 			std::string e;
@@ -270,6 +270,209 @@ struct Exec
 				if (len == 0) continue;
 				T y = do_get(a);
 				e = "{\"op\":\"get\"," + kv("h", h) + "," + kv("r", valueOf<Cv>(y)) + post(h);
+			}
+			// ---- the remaining Array surface (ArraySeq.tla, "remaining public surface") ----
+			else if (r >= 118 && r < 122) // constructors from a size / a size and a value
+			{
+				int g = rng.chance(50) ? (pickDead() ? pickDead() : pickLive()) : pickLive();
+				int n = rng.chance(70) ? rng.below(12) : rng.below(maxLen / 2);
+				if (rng.chance(50))
+				{
+					{
+						Array<T> t(n);
+						if (Cv::pod) for (int q = 0; q < n; q++) t[q] = Cv::make(0);
+						bindNew(g, t);
+					}
+					e = "{\"op\":\"ctorN\"," + kv("h", g) + "," + kv("g", g) + "," + kv("n", n) + post(g);
+				}
+				else
+				{
+					int v = rng.range(1, NV);
+					bindNew(g, Array<T>(n, Cv::make(v)));
+					e = "{\"op\":\"ctorFill\"," + kv("h", g) + "," + kv("g", g) + "," + kv("n", n) + "," + kv("v", v) + post(g);
+				}
+			}
+			else if (r >= 122 && r < 130) // list-taking calls
+			{
+				static const char* vias[] = { "ptr", "init", "arrayinit", "arrayfn", "comma" };
+				int ln = rng.below(7);
+				std::vector<T> x;
+				std::string sv = "[";
+				for (int q = 0; q < ln; q++)
+				{
+					int v = rng.range(1, NV);
+					x.push_back(Cv::make(v));
+					sv += (q ? "," : "") + std::to_string(v);
+				}
+				sv += "]";
+				x.push_back(Cv::make(0));
+				int what = rng.below(3);
+				if (what == 0)
+				{
+					int g = rng.chance(50) ? (pickDead() ? pickDead() : pickLive()) : pickLive();
+					std::string via = vias[rng.below(5)];
+					if (via == "arrayfn" && ln == 0) continue;
+					{
+						Array<T> t;
+						if (via == "ptr") { Array<T> u(&x[0], ln); t = u; }
+						else if (via == "init") t = listCtor<T>(&x[0], ln);
+						else if (via == "arrayinit") t = listArrayInit<T>(&x[0], ln);
+						else if (via == "arrayfn") t = listArrayFn<T>(&x[0], ln);
+						else { Array<T> u; for (int q = 0; q < ln; q++) (u, x[q]); t = u; }
+						bindNew(g, t);
+					}
+					e = "{\"op\":\"fromList\"," + kv("h", g) + "," + kv("g", g) + ",\"s\":" + sv + "," + ks("via", via) + post(g);
+				}
+				else if (what == 1)
+				{
+					if (a.rc() != 1) continue; // a = {...} on a shared array: not specified
+					listAssign<T>(a, &x[0], ln);
+					e = "{\"op\":\"assignList\"," + kv("h", h) + ",\"s\":" + sv + post(h);
+				}
+				else
+				{
+					if (len + ln > maxLen || growHazard(a, len + ln)) continue;
+					listAppend<T>(a, &x[0], ln);
+					e = "{\"op\":\"appendList\"," + kv("h", h) + ",\"s\":" + sv + post(h);
+				}
+			}
+			else if (r >= 130 && r < 139) // pointer-based calls, the pointer may point into the array itself
+			{
+				int g = rng.chance(50) ? h : pickLive();
+				int gl = hs[g]->length();
+				int i = rng.below(gl + 1), n = rng.chance(20) ? gl - i : rng.below(gl - i + 1);
+				if (n > 40 && rng.chance(80)) n = rng.below(40);
+				int what = rng.below(3);
+				if (what == 0)
+				{
+					if (len + n > maxLen || growHazard(a, len + n)) continue;
+					a.append(hs[g]->data() + i, n);
+					e = "{\"op\":\"appendPtr\"," + kv("h", h) + "," + kv("g", g) + "," + kv("i", i) + "," + kv("n", n) + post(h);
+				}
+				else if (what == 1)
+				{
+					if (growHazard(a, n)) continue;
+					a.copy(hs[g]->data() + i, n);
+					e = "{\"op\":\"copyPtr\"," + kv("h", h) + "," + kv("g", g) + "," + kv("i", i) + "," + kv("n", n) + post(h);
+				}
+				else
+				{
+					int t = rng.chance(50) ? (pickDead() ? pickDead() : pickLive()) : pickLive();
+					{
+						Array<T> u(hs[g]->data() + i, n);
+						bindNew(t, u);
+					}
+					e = "{\"op\":\"ctorPtr\"," + kv("h", g) + "," + kv("g", t) + "," + kv("i", i) + "," + kv("n", n) + post(g, t);
+				}
+			}
+			else if (r >= 139 && r < 143) // conversions
+			{
+				static const char* vias[] = { "ctor", "with", "map_" };
+				if (rng.chance(70))
+				{
+					int g = rng.chance(50) ? (pickDead() ? pickDead() : pickLive()) : pickLive();
+					std::string via = vias[rng.below(3)];
+					bindNew(g, convertVia<T>(a, via));
+					e = "{\"op\":\"conv\"," + kv("h", h) + "," + kv("g", g) + "," + ks("via", via) + post(h, g);
+				}
+				else
+				{
+					int g = pickLive();
+					if (a.rc() != 1) continue; // template operator= on a shared array: not specified
+					Array<Box<T> > b(*hs[g]);
+					static_cast<Array<T>&>(a) = b;
+					e = "{\"op\":\"assignConv\"," + kv("h", h) + "," + kv("g", g) + post(h);
+				}
+			}
+			else if (r >= 143 && r < 147) // sort(Less), sortBy(key)
+			{
+				int what = rng.below(3);
+				if (what == 0) { a.sort(GreaterFn<Cv>()); e = "{\"op\":\"sortDesc\"," + kv("h", h) + post(h); }
+				else if (what == 1)
+				{
+					int asc = rng.below(2);
+					if (asc && rng.chance(50)) a.sortBy(KeyFn<Cv>()); else a.sortBy(KeyFn<Cv>(), asc == 1);
+					e = "{\"op\":\"sortBy\"," + kv("h", h) + "," + kv("asc", asc) + post(h);
+				}
+				else
+				{
+					a.sortBy(ParFn<Cv>());
+					std::string sv = "[";
+					char b[16];
+					for (int q = 0; q < a.length(); q++) { snprintf(b, sizeof b, q ? ",%d" : "%d", valueOf<Cv>(a[q])); sv += b; }
+					e = "{\"op\":\"sortByPar\"," + kv("h", h) + ",\"s2\":" + sv + "]" + post(h);
+				}
+			}
+			else if (r >= 147 && r < 151) // removal variants
+			{
+				int what = rng.below(3);
+				if (what == 0)
+				{
+					int v = rng.below(NV + 1); // (the String tables have 4 entries)
+					LtFn<Cv> f = { Cv::make(v) };
+					a.removeIf(f);
+					e = "{\"op\":\"removeIfLt\"," + kv("h", h) + "," + kv("v", v) + post(h);
+				}
+				else if (what == 1)
+				{
+					int v = rng.range(1, NV), i0 = rng.below(len + 1);
+					bool res = a.removeOne(Cv::make(v), i0);
+					e = "{\"op\":\"removeOneFrom\"," + kv("h", h) + "," + kv("v", v) + "," + kv("i", i0) + "," + kv("r", res ? 1 : 0) + post(h);
+				}
+				else
+				{
+					int i = rng.below(len + 1);
+					a.remove(i, 0);
+					e = "{\"op\":\"remove\"," + kv("h", h) + "," + kv("i", i) + "," + kv("n", 0) + post(h);
+				}
+			}
+			else if (r >= 151 && r < 162) // calls that only read: the result is logged and TLC computes what it must be
+			{
+				int what = rng.below(6);
+				char b[16];
+				if (what == 0) // enumerators
+				{
+					static const char* vias[] = { "slice_", "slice_", "all", "for", "foreach" };
+					std::string via = vias[rng.below(5)];
+					int i1 = 0, i2 = 0;
+					if (via == "slice_") { i1 = rng.below(len + 1); i2 = rng.chance(25) ? 0 : rng.range(i1, len); if (i2 - i1 > 60) i2 = i1 + rng.below(60); if (i2 == 0 && len - i1 > 60) continue; }
+					else if (len > 80) continue;
+					std::string rv = "[";
+					int cnt = 0;
+					if (via == "slice_" || via == "all")
+					{
+						typename Array<T>::Enumerator en = via == "all" ? a.all() : (i2 == 0 && rng.chance(50)) ? a.slice_(i1) : a.slice_(i1, i2);
+						for (; en; ++en, cnt++) { snprintf(b, sizeof b, cnt ? ",%d" : "%d", valueOf<Cv>(*en)); rv += b; }
+					}
+					else if (via == "for") { for (T& x : a) { snprintf(b, sizeof b, cnt ? ",%d" : "%d", valueOf<Cv>(x)); rv += b; cnt++; } }
+					else { foreach (T& x, a) { snprintf(b, sizeof b, cnt ? ",%d" : "%d", valueOf<Cv>(x)); rv += b; cnt++; } }
+					e = "{\"op\":\"enum\"," + kv("h", h) + "," + kv("i1", i1) + "," + kv("i2", i2) + "," + ks("via", via) + ",\"r\":" + rv + "]" + post(h);
+				}
+				else if (what == 1)
+				{
+					int v = rng.range(1, NV), j = rng.below(len + 1);
+					e = "{\"op\":\"indexOf\"," + kv("h", h) + "," + kv("v", v) + "," + kv("j", j) + "," + kv("r", a.indexOf(Cv::make(v), j) + 1) + post(h);
+				}
+				else if (what == 2)
+				{
+					if (len == 0) continue;
+					int i = rng.chance(50) ? 0 : rng.below(len);
+					e = "{\"op\":\"top\"," + kv("h", h) + "," + kv("i", i) + "," + kv("r", valueOf<Cv>(do_top(a, i))) + post(h);
+				}
+				else if (what < 5)
+				{
+					int g = pickLive();
+					const C& bb = *hs[g];
+					if ((a == bb) == (a != bb)) { fprintf(stderr, "VREC-FAIL: == and != agree\n"); exit(3); }
+					e = "{\"op\":\"cmp\"," + kv("h", h) + "," + kv("g", g) + "," + kv("eq", a == bb ? 1 : 0) + "," + kv("lt", a < bb ? 1 : 0) + post(h);
+				}
+				else
+				{
+					if (Cv::tt < 0 || len > 40) continue;
+					std::string sep = rng.chance(30) ? "" : rng.chance(50) ? ", " : "-+-";
+					String j = joinOf(a, String(sep.c_str(), (int)sep.size()));
+					e = "{\"op\":\"join\"," + kv("h", h) + "," + kv("tt", Cv::tt) + ",\"sep\":" + vj::codes(sep) + ",\"r\":" + vj::codes(std::string(*j, (size_t)j.length())) + post(h);
+				}
 			}
 			else { check(); done++; continue; }
 			log.line(e);
